@@ -29,7 +29,7 @@ def parseRd (r : Array String) : RdRun :=
 /-- canonical class of a reader failure message (never the raw text with ids) -/
 def errClass (m : String) : String :=
   let has (p : String) : Bool := (m.splitOn p).length > 1
-  if has "not found in index" || has "not found in the index" || has "is not contained in" then "blob-not-in-index"
+  if has "not found in index" || has "not found in the index" || has "not found in repository" || has "is not contained in" then "blob-not-in-index"
   else if has "tree" && has "not found" then "tree-not-found"
   else if has "locked" then "locked"
   else "other-error"
